@@ -800,6 +800,50 @@ def build_all(ctx, nmods, nfun):
     return ok, specs, kinds
 
 
+def isolate_crash(ctx, spec):
+    """bisect the (table, history) / (function, history) units of a spec whose worker died down to a single unit
+    that still kills a fresh worker; returns (input description, worker result) or (None, None)"""
+    units = [("tbl", i, j) for i, c in enumerate(spec["tables"]) for j in range(len(c["hists"]))]
+    units += [("st", i, j) for i, c in enumerate(spec["structured"]) for j in range(len(c["runs"]))]
+
+    def sub(us):
+        tb, st = {}, {}
+        for k, i, j in us:
+            (tb if k == "tbl" else st).setdefault(i, []).append(j)
+        tables = [dict(spec["tables"][i], hists=[spec["tables"][i]["hists"][j] for j in js]) for i, js in sorted(tb.items())]
+        structured = [dict(spec["structured"][i], runs=[spec["structured"][i]["runs"][j] for j in js])
+                      for i, js in sorted(st.items())]
+        return {"modules": spec["modules"], "tables": tables, "structured": structured}
+
+    def dies(us):
+        r = cybuild.run_script(DRIVER, ctx.workdir, stdin_obj=sub(us), timeout=600)
+        return r["json"] is None, r
+
+    last = None
+    while len(units) > 1:
+        half = units[:len(units) // 2]
+        d, r = dies(half)
+        if d:
+            units, last = half, r
+            continue
+        rest = units[len(units) // 2:]
+        d, r = dies(rest)
+        if not d:
+            return None, None          # only the combination dies: not isolated
+        units, last = rest, r
+    if last is None:
+        d, last = dies(units)
+        if not d:
+            return None, None
+    k, i, j = units[0]
+    if k == "tbl":
+        c = spec["tables"][i]
+        return {"table": {x: c[x] for x in ("rows", "subs", "probes", "coro", "k0")}, "history": c["hists"][j]}, last
+    c = spec["structured"][i]
+    fn, kind, h = c["runs"][j]
+    return {"module": c["module"], "func": fn, "kind": kind, "history": h}, last
+
+
 def run(ctx):
     quick = ctx.tier == "quick"
     maxlen = 6 if quick else 8
@@ -838,7 +882,13 @@ def run(ctx):
         json.dump(spec, f)
     res = cybuild.run_script(DRIVER, ctx.workdir, stdin_obj=spec, timeout=3000)
     if res["json"] is None:
-        ctx.corr_break("driver", "driver", "rc=%s %s" % (res["rc"], (res["err"] or res["out"])[-1500:]), "driver runs")
+        # the worker died (abort / segfault / hang inside compiled code): find one history that kills it
+        unit, ures = isolate_crash(ctx, spec)
+        if unit is not None:
+            ctx.fail("process_crash", unit, "rc=%s %s" % (ures["rc"], (ures["err"] or ures["out"])[-600:]),
+                     "the history runs to completion as it does in CPython")
+        else:
+            ctx.corr_break("driver", "driver", "rc=%s %s" % (res["rc"], (res["err"] or res["out"])[-1500:]), "driver runs")
         return
     out = res["json"]
     model = ctx.model("gen")
